@@ -2,6 +2,13 @@ HOOK_COMMITS = ["d197d80"]
 NOTES = "All checks are generated-input search (proptest choice sequences, exhaustive small-domain enumeration) against explicit oracles; see DESIGN.md. Exit 2 = inconclusive (build failure / watchdog), never a violation."
 NOT_CLAIMED = {}
 CLAIMED = {
+ "C18": {
+  "technique": "stress exploration: generated filter sets executed concurrently (barrier-released threads, shared and per-thread filters/contexts) against a sequential baseline and the reference evaluator; fresh child processes racing first use of lazily initialised global state",
+  "text": "Exploration: per case one generated scheme with 19 template filters (regex, SIMD contains, in-sets, lists, wildcard, map-each, plain and mapped calls, xor chains) plus generated filters and 10-16 contexts; after a sequential gate (engine = reference evaluator, repeat and recompile agree) T = 2, 4, 16, 64 barrier-released threads execute every (filter, context) pair repeatedly on shared Arc<Filter> / shared contexts as well as per-thread recompilations and cloned contexts, in walk and same-filter burst patterns; every result must equal the baseline; in-flight counters measure real overlap; fresh child processes (AVX2 on and off) race the first contains compile and first regex execution on 16 threads and must reproduce the sequential digest.",
+  "note": "Generated search cannot choose thread schedules: this is stress exploration of the schedules that occur; no ThreadSanitizer build; races that change no result, crash nothing and hang nothing are invisible.",
+  "ref": "DESIGN.md section 3, C18",
+ },
+
  "C11": {
   "technique": "property-based testing of generated regexes against a position-set reference matcher + exhaustive wildcard patterns against a DP reference + metamorphic size-limit checks",
   "text": "Exploration: regexes from a subset grammar (literals incl. escapes and \\xHH, ., classes with ranges/negation/quotes, ?*+, alternation, groups, ^ $) written quoted and raw: the AST carries exactly the pattern and the match result equals an independent position-set matcher on ~13 values each (non-UTF-8, newlines, case flips, empty); every wildcard pattern over {a,B,*,\\,?} up to length 6 (quick) / 8 (thorough) in quoted/escaped/raw forms, both operators, star limits 0..4: rejected exactly for invalid escapes, trailing backslash, ** and too many stars, accepted ones agree with a DP matcher (ASCII case folding iff not strict); regex size limits behave monotonically.",
